@@ -141,6 +141,33 @@ fn one_case(ctx: &Ctx, case: u64, l: &mut Local) {
             }
         }
     }
+    // a reserved member inside a user-supplied top-level `cnf`, with and without a holder key being
+    // bound in the same call ("any object anywhere in the user claims")
+    {
+        use crate::keys::Alg as A;
+        for name in ["_sd", "..."] {
+            for (k, cnf) in [json!({"jwk": {"kty": "oct", "k": "AAAA", name: ["x"]}}), json!({name: "x"}), json!({"jwk": {"kty": "EC"}, "more": [{"deep": {name: 1}}]})].into_iter().enumerate() {
+                let mut planted = u.clone();
+                planted["cnf"] = cnf;
+                for holder in [None, Some((A::ES256, 0usize)), Some((A::EdDSA, 1))] {
+                    let st = &strategies[(k + holder.is_some() as usize) % strategies.len()];
+                    let fmt = FMTS[k % 2];
+                    l.evals += 1;
+                    l.count("position.inside-user-cnf");
+                    match api::issue(&mut issuer, &planted, st, holder, k % 2 == 0, fmt) {
+                        Outcome::Err(_) => l.count(&format!("plant.{name}.refused")),
+                        other => l.violate(Violation {
+                            subcheck: "reserved-name-issued".into(),
+                            class: format!("{name} @ inside user cnf (holder key bound: {})", holder.is_some()),
+                            observed: other.panic_signature().unwrap_or_else(|| "Ok (SD-JWT produced)".into()),
+                            case,
+                            detail: json!({"claims": planted, "strategy": st.describe(), "format": fmt.name(), "holder_key": holder.map(|h| h.0.name())}),
+                        }),
+                    }
+                }
+            }
+        }
+    }
     // plants
     let mut vk = r.usize(nv);
     for t in 0..sites {
